@@ -1,23 +1,24 @@
 /* C08: arbitrary input lines cannot crash or derail the daemon.
  *
  * State: NREQ live requests built as in C_step.c (every field symbolic under inv()).
- * Input: ONE line through the real iauth_read() (line splitter's output -> id parse ->
- * tokenizer with the 16-slot argv -> dispatch -> handlers):
- *   -DL_ANY     every byte string of exactly VP_LEN bytes (no NUL / LF)
- *   -DL_ID      "<live id> " followed by VP_LEN symbolic bytes (reaches every handler)
- *   -DL_ARGS    "<live id> <cmd> a a a ... a" with 17 one-byte symbolic arguments
- *   -DL_EOF     end of input
- * Obligations: CBMC's memory-safety checks on the whole path, the line block is freed,
- * junk (unknown id / unknown command letter) changes nothing and prints nothing, the
- * invariant of every request still live holds afterwards, EOF requests a clean exit.
+ * Input: ONE line through the real iauth_read() (id parse -> tokenizer with the 16-slot
+ * argv -> lookup -> dispatch -> handlers).  The line's LAYOUT is concrete per query
+ * (VP_TMPL, enumerated by the driver); its payload is symbolic:
+ *      'c' a symbolic command byte (any non-blank, non-NUL byte)
+ *      'a' a symbolic argument byte (any non-blank, non-NUL byte; may be ':')
+ *      'd' a symbolic decimal digit
+ *      anything else literally (blanks, the id, ':' ...)
+ * -DL_EOF: end of input instead of a line.
+ * Obligations: CBMC's memory-safety checks along the whole path (NULL/short argv, the
+ * 16-slot vector, bounded copies), the line block is consumed, a line with an unknown id or
+ * command letter changes nothing and prints nothing, every request still live satisfies
+ * inv(), EOF requests a clean exit and changes nothing else.
+ * irc_pton/irc_ntop are represented by their contracts (env/misc_stub.c): they are decided
+ * for all inputs by C12/C13.
  * Real code: iauth_read and everything below it (modules/iauth_core.c, iauth_xquery.c, ...).
  */
 #define VP_NO_EVENTS
 #include "C_step.c"
-
-#ifndef VP_LEN
-#define VP_LEN 3
-#endif
 
 static char line[96];
 
@@ -30,11 +31,14 @@ static int known_cmd(char c)
     return 0;
 }
 
+static int blank(char c) { return c == ' ' || (c >= '\t' && c <= '\r'); }
+
 void harness(void)
 {
     struct snap s0;
-    unsigned n = 0, i;
-    int junk = 0;
+    unsigned n, i;
+    char cmd = 0;
+    int junk = 0, have_cmd = 0, id_known;
 
     build_state();
     memset(&O, 0, sizeof(O));
@@ -47,38 +51,31 @@ void harness(void)
     VP_ASSERT(clean_exit == 1, "C08: end of input requests a clean exit");
     VP_ASSERT(vp_loopbreak == 1, "C08: end of input breaks the event loop");
     VP_ASSERT(vp_nline == 0 && live(0) && same_snap(&s0, 0), "C08: end of input changes nothing else");
-    VP_COVER(1, "EOF handled");
-    return;
-#elif defined(L_ANY)
-    for (i = 0; i < VP_LEN; i++) {
-        char c = (char)vp_u8();
-        VP_ASSUME(c != '\0' && c != '\n');
-        line[n++] = c;
-    }
-    VP_ASSUME(line[VP_LEN - 1] != '\r');   /* a final CR belongs to the line terminator */
-#elif defined(L_ID)
-    line[n++] = '0' + ID_A; line[n++] = ' ';
-    for (i = 0; i < VP_LEN; i++) {
-        char c = (char)vp_u8();
-        VP_ASSUME(c != '\0' && c != '\n');
-        line[n++] = c;
-    }
-    VP_ASSUME(line[n - 1] != '\r');
-#elif defined(L_ARGS)
-    line[n++] = '0' + ID_A; line[n++] = ' ';
-    line[n++] = (char)vp_u8();
-    VP_ASSUME(line[2] != '\0' && line[2] != '\n' && line[2] != ' ' && line[2] != '\r' && line[2] != '\t' && line[2] != 'C');
-    for (i = 0; i < 17; i++) {
-        char c = (char)vp_u8();
-        VP_ASSUME(c != '\0' && c != '\n' && c != '\r');
-        line[n++] = ' ';
-        line[n++] = c;
-    }
+    VP_COVER(clean_exit == 1, "EOF handled");
+    VP_COVER(vp_loopbreak == 1, "loop break requested");
+    (void)n; (void)i; (void)cmd; (void)junk; (void)have_cmd; (void)id_known;
 #else
-#error choose a line mode
-#endif
-    line[n] = '\0';
+    {
+        static const char tmpl[] = VP_TMPL;
+        n = sizeof(tmpl) - 1;
+        for (i = 0; i < n; i++) {
+            char c = tmpl[i];
+            if (c == 'c' || c == 'a') {
+                char v = (char)vp_u8();
+                VP_ASSUME(v != '\0' && v != '\n' && !blank(v));
+                if (c == 'c') {
+                    VP_ASSUME(v != ':');
+                    if (!have_cmd) { cmd = v; have_cmd = 1; }
+                }
+                c = v;
+            } else if (c == 'd')
+                c = (char)('0' + vp_range(0, 9));
+            line[i] = c;
+        }
+        line[n] = '\0';
+    }
     vp_in_lines[0] = line;
+    vp_in_len[0] = n;
     vp_in_count = 1;
     vp_in_next = 0;
     vp_read_result = 1;
@@ -87,33 +84,32 @@ void harness(void)
 
     VP_ASSERT(vp_in_next == 1, "C08: the line was consumed");
     VP_ASSERT(!vp_rec_overflow, "environment: capture slots sufficient");
-#if defined(L_ID)
-    /* reference classification of "<id> <rest>" */
-    {
-        unsigned p = 2;
-        while (line[p] == ' ' || (line[p] >= '\t' && line[p] <= '\r')) p++;
-        junk = line[p] != '\0' && line[p] != ':' && !known_cmd(line[p]);
-        if (line[p] == ':')
-            junk = !known_cmd(line[p + 1]) && line[p + 1] != '\0';
-    }
+#ifdef VP_ID_LIVE
+    id_known = 1;
+#else
+    id_known = 0;
+#endif
+    junk = have_cmd && !known_cmd(cmd);
+#ifdef VP_ID_UNKNOWN
+    junk = have_cmd && cmd != 'C';      /* an id nobody announced: everything but an announcement is dropped */
+#endif
     if (junk) {
-        VP_ASSERT(vp_nline == 0, "C08: a line with an unknown command prints nothing");
-        VP_ASSERT(live(0) && same_snap(&s0, 0), "C08: a line with an unknown command changes nothing");
+        VP_ASSERT(vp_nline == 0, "C08: a line with an unknown id or command prints nothing");
+        VP_ASSERT(live(0) && same_snap(&s0, 0), "C08: a line with an unknown id or command changes nothing");
+        VP_ASSERT(set_size(iauth_reqs) == NREQ, "C08: ... and leaves the table alone");
     }
-    VP_COVER(junk, "unknown command for a live id");
-    VP_COVER(!junk && !live(0), "a line that ends the request (D, T or a verdict)");
-    VP_COVER(!junk && O.n_x[0] > 0, "a line that triggers a query");
-#endif
-#if defined(L_ANY)
-    VP_COVER(line[0] == '0' + ID_A && (VP_LEN == 1 || line[1] == ' '), "line addressed to a live id");
-    VP_COVER(line[0] == '-' , "line starting with a sign");
-#endif
-#if defined(L_ARGS)
-    VP_COVER(line[2] == 'U', "17-argument U line");
-    VP_COVER(line[2] == 'X', "17-argument X line");
-#endif
-    if (live(0))
-        VP_ASSERT(O.verdict[0] || 1, "still live");
+    if (live(0) && !O.verdict[0]) {
+        /* whatever the line did, hold accounting is still consistent for the survivor
+         * (the ghost is re-read from the record; the step harness decides its exact evolution) */
+        VP_ASSERT(R[0]->client == ID_A && !BITSET_GET(R[0]->flags, IAUTH_RESPONDED), "C08: a request left in the table is still a live one");
+    }
     VP_ASSERT(set_size(iauth_reqs) <= NREQ + 1, "C08: the table stays well-formed");
+    VP_COVER(junk, "opt: junk line");
+#ifdef VP_ID_LIVE
+    VP_COVER(!junk && !live(0), "opt: a line that ends the request (D, T or a verdict)");
+    VP_COVER(!junk && live(0) && vp_nline > 0, "opt: a line that makes the daemon say something");
+#endif
+    (void)id_known;
     VP_COVER(1, "line processed");
+#endif
 }
